@@ -4,7 +4,7 @@ from spec import instructions as SI
 from ..bits import BV, eq_bit
 from ..interp import State
 from ..values import UNIT, Ref, Struct
-from .common import asm_not_pure, U8, U16, U32, arg_obj, fn_site, same
+from .common import inner, newtype, asm_not_pure, U8, U16, U32, arg_obj, fn_site, same
 
 LEVEL = 'proof'
 PG = 'instructions::port::PortGeneric'
@@ -83,7 +83,7 @@ def run(chk):
         chk.count('function-instances', 2)
 
         def generic():
-            obj = Struct(PG, [BV.sym(16, 'self.port'), UNIT])
+            obj = newtype(None, PG, BV.sym(16, 'self.port'))
             st = State()
             ref = arg_obj(st, 'self', obj)
             outs = I.run(PG + '::<T, A>::read', [ref], st, {'T': T})
@@ -101,14 +101,14 @@ def run(chk):
 
     def misc():
         o = I.run(PG + '::<T, A>::new', [BV.sym(16, 'p')])
-        chk.ob('port-object', 'new stores the port number', len(o) == 1 and o[0].kind == 'ret' and same(o[0].val.fields[0], BV.sym(16, 'p')), 'returns %r' % (o,))
+        chk.ob('port-object', 'new stores the port number', len(o) == 1 and o[0].kind == 'ret' and same(inner(o[0].val), BV.sym(16, 'p')), 'returns %r' % (o,))
         st = State()
-        ref = arg_obj(st, 'self', Struct(PG, [BV.sym(16, 'p'), UNIT]))
+        ref = arg_obj(st, 'self', newtype(None, PG, BV.sym(16, 'p')))
         o = I.run('<%s<T, A> as core::clone::Clone>::clone' % PG, [ref], st)
-        chk.ob('port-object', 'clone refers to the same port', len(o) == 1 and o[0].kind == 'ret' and same(o[0].val.fields[0], BV.sym(16, 'p')), 'returns %r' % (o,))
+        chk.ob('port-object', 'clone refers to the same port', len(o) == 1 and o[0].kind == 'ret' and same(inner(o[0].val), BV.sym(16, 'p')), 'returns %r' % (o,))
         st = State()
-        a = arg_obj(st, 'a', Struct(PG, [BV.sym(16, 'p'), UNIT]))
-        b = arg_obj(st, 'b', Struct(PG, [BV.sym(16, 'q'), UNIT]))
+        a = arg_obj(st, 'a', newtype(None, PG, BV.sym(16, 'p')))
+        b = arg_obj(st, 'b', newtype(None, PG, BV.sym(16, 'q')))
         o = I.run('<%s<T, A> as core::cmp::PartialEq>::eq' % PG, [a, b], st)
         want = BV(1, [eq_bit(BV.sym(16, 'p').bits, BV.sym(16, 'q').bits)])
         chk.ob('port-object', 'eq is exactly equality of the port numbers', len(o) == 1 and o[0].kind == 'ret' and (same(o[0].val, want) or same(o[0].val, BV(1, [eq_bit(BV.sym(16, 'q').bits, BV.sym(16, 'p').bits)]))),
